@@ -159,7 +159,11 @@ func (r *Run) Violation(signature string, detail interface{}) {
 		if reproduced < 2 {
 			r.nonReproducing++
 			r.counters["harness_errors"]++
-			fmt.Printf("HARNESS ERROR: violation %q did not reproduce when replayed (%d of 2); not reported as a violation\n", signature, reproduced)
+			db, _ := json.Marshal(detail)
+			if len(db) > 1500 {
+				db = db[:1500]
+			}
+			fmt.Printf("HARNESS ERROR: violation %q did not reproduce when replayed (%d of 2); not reported as a violation; detail: %s\n", signature, reproduced, db)
 			return
 		}
 		m["reproduced"] = "replayed twice in a fresh worker, same signature both times"
